@@ -95,7 +95,7 @@ CHECKS.update({
     "C11": (
         "E1 package engine",
         "property-based testing: Hypothesis-drawn packages with cross-module class references; oracle = cross-file symbol resolution over the parsed stub set (independent recogniser)",
-        "Every named type, generic, superclass and type-parameter bound of every stub file must resolve to a built-in mapping, a declaration of the same file, an import of that file (or a declaration of the same Safe-DS package), and every import line must name a package and a declaration present in the generated stub set, placeholder stubs included.",
+        "Every named type, generic, superclass and type-parameter bound of every stub file must resolve to a built-in mapping, a declaration of the same file, an import of that file, and every import line must name a package and a declaration present in the generated stub set, placeholder stubs included.",
         "§5 C11",
     ),
     "C17": (
